@@ -355,6 +355,116 @@ def table(tier="quick"):
     add("leverage", "tensorly.metrics.leverage_score_dist", lambda d: (lambda Mx=d.arr(6, 4): M.leverage_score_dist(Mx)), fam="FLeverage",
         exempt={"": "documented: leverage-score distributions are always float64"})
     add("compress", "tensorly.preprocessing.svd_compress_tensor_slices", lambda d: (lambda sl=slices(d): svd_compress_tensor_slices(sl, max_rank=3)), fam="FCompress")
+    # ------------------------------------------------------------------ rows added from a line-coverage survey of the allocation sites
+    # (branches of the anchored code that no earlier row executed)
+    from tensorly import tucker_tensor as tkt, tt_tensor as ttt, tr_tensor as trt, tt_matrix as ttm, parafac2_tensor as p2t
+    from tensorly.metrics import entropy as ENT
+    from tensorly.contrib.decomposition import tensor_train_OI
+    from tensorly.tenalg.core_tenalg.mttkrp import unfolding_dot_khatri_rao_memory
+    from tensorly.preprocessing import svd_decompress_parafac2_tensor
+    SH2 = (2, 3, 4)
+    # SVD initialisation with rank > mode size: the missing columns are filled with tl.tensor(rng.random_sample(...), **context)
+    add("parafac_svd_rank_gt_dim", pf, lambda d: (lambda X=d.arr(*SH2): dec.parafac(X, 3, n_iter_max=2, init="svd", random_state=1)),
+        fam="FParafac", opts=dict(init="ISvd"), dts=ALL3)
+    add("nn_parafac_svd_rank_gt_dim", "tensorly.decomposition.non_negative_parafac",
+        lambda d: (lambda X=d.arr(*SH2): dec.non_negative_parafac(X, 3, n_iter_max=2, init="svd", random_state=1)), fam="FNNParafac", opts=dict(init="ISvd"))
+    add("nn_parafac_hals_svd_rank_gt_dim", "tensorly.decomposition.non_negative_parafac_hals",
+        lambda d: (lambda X=d.arr(*SH2): dec.non_negative_parafac_hals(X, 3, n_iter_max=2, init="svd", random_state=1)), fam="FNNParafacHals", opts=dict(init="ISvd"))
+    add("constrained_svd_rank_gt_dim", cp_, lambda d: (lambda X=d.arr(*SH2): dec.constrained_parafac(X, 3, n_iter_max=2, init="svd", random_state=1, non_negative=True)),
+        fam="FConstrained", opts=dict(init="ISvd", prox="nonneg"))
+    add("parafac2_svd_rank_gt_dim", p2, lambda d: (lambda sl=[d.arr(4 + i, 2) for i in range(3)]: dec.parafac2(sl, 2, n_iter_max=2, init="svd")), fam="FParafac2",
+        opts=dict(init="ISvd"))
+    # wide matrices, V-based sign flips, more singular vectors than rows/columns (svd_flip concatenates tl.ones(..., **context(V)))
+    for meth in ("truncated_svd", "symeig_svd", "randomized_svd"):
+        add("svd_wide_" + meth, "tensorly.tenalg.svd.svd_interface",
+            lambda d, meth=meth: (lambda Mx=d.arr(3, 7): tl.svd_interface(Mx, n_eigenvecs=2, method=meth, u_based_flip_sign=False, **({"random_state": 1} if meth == "randomized_svd" else {}))),
+            fam="FSvd", opts=dict(flip=True), dts=ALL3, real={"#1"})
+    add("svd_full_tall", "tensorly.tenalg.svd.svd_interface", lambda d: (lambda Mx=d.arr(5, 3): tl.svd_interface(Mx, n_eigenvecs=5)), fam="FSvd", opts=dict(flip=True), dts=ALL3, real={"#1"})
+    add("svd_full_wide_vflip", "tensorly.tenalg.svd.svd_interface", lambda d: (lambda Mx=d.arr(3, 5): tl.svd_interface(Mx, n_eigenvecs=5, u_based_flip_sign=False)), fam="FSvd", opts=dict(flip=True), dts=ALL3, real={"#1"})
+    add("svd_noflip_all", "tensorly.tenalg.svd.svd_interface", lambda d: (lambda Mx=d.arr(4, 4): tl.svd_interface(Mx, flip_sign=False)), fam="FSvd", opts=dict(flip=False), dts=ALL3, real={"#1"})
+    for mk in ("same", "bool"):
+        add("svd_mask_plain_" + mk, "tensorly.tenalg.svd.svd_interface",
+            lambda d, mk=mk: (lambda Mx=d.arr(6, 4), m=d.mask((6, 4), mk): tl.svd_interface(Mx, n_eigenvecs=2, mask=m, n_iter_mask_imputation=2)),
+            fam="FSvd", opts=dict(flip=True), mask=mk, real={"#1"})
+    for mk in ("bool", "int"):
+        add("partial_tucker_mask_" + mk, "tensorly.decomposition.partial_tucker",
+            lambda d, mk=mk: (lambda X=d.arr(*SH), m=d.mask(SH, mk): dec.partial_tucker(X, [2, 2], modes=[0, 2], n_iter_max=2, mask=m)), fam="FPartialTucker",
+            opts=dict(init="ISvd", errors=True), mask=mk, real={"#1"})
+    add("parafac_mask_bool_linesearch", pf,
+        lambda d: (lambda X=d.collinear(), m=d.mask((6, 5, 4), "bool"): dec.parafac(X, 3, n_iter_max=12, tol=0, linesearch=True, mask=m, init="random", random_state=3, return_errors=True)),
+        fam="FParafac", opts=dict(init="IRandom", linesearch=True, errors=True), mask="bool", real=ERR, n=12)
+    # class wrappers (same code through fit_transform)
+    add("class_CP", "tensorly.decomposition.CP", lambda d: (lambda X=d.arr(*SH): dec.CP(R, n_iter_max=2, init="random", random_state=1).fit_transform(X)), fam="FParafac", opts=dict(init="IRandom"), dts=ALL3)
+    add("class_CP_mask_bool", "tensorly.decomposition.parafac", lambda d: (lambda X=d.arr(*SH), m=d.mask(SH, "bool"): dec.CP(R, n_iter_max=2, init="random", random_state=1, mask=m).fit_transform(X)),
+        fam="FParafac", opts=dict(init="IRandom"), mask="bool")
+    add("class_Tucker", "tensorly.decomposition.Tucker", lambda d: (lambda X=d.arr(*SH): dec.Tucker(RK, n_iter_max=2).fit_transform(X)), fam="FTucker", opts=dict(init="ISvd"), dts=ALL3)
+    add("class_CP_NN_HALS", "tensorly.decomposition.CP_NN_HALS", lambda d: (lambda X=d.arr(*SH): dec.CP_NN_HALS(R, n_iter_max=2, init="random", random_state=1).fit_transform(X)), fam="FNNParafacHals", opts=dict(init="IRandom"))
+    add("class_ConstrainedCP", "tensorly.decomposition.ConstrainedCP", lambda d: (lambda X=d.arr(*SH): dec.ConstrainedCP(R, n_iter_max=2, init="random", random_state=1, l1_reg=0.1).fit_transform(X)),
+        fam="FConstrained", opts=dict(init="IRandom", prox="l1"))
+    add("class_TensorTrain_Ring", "tensorly.decomposition.TensorTrain", lambda d: (lambda X=d.arr(*SH): (dec.TensorTrain([1, 2, 2, 1]).fit_transform(X), dec.TensorRing([2, 2, 2, 2]).fit_transform(X))), fam="FSvdChain", dts=ALL3)
+    add("class_Parafac2", "tensorly.decomposition.Parafac2", lambda d: (lambda sl=slices(d): dec.Parafac2(R, n_iter_max=2, random_state=1, return_errors=True).fit_transform(sl)), fam="FParafac2", opts=dict(init="IRandom"))
+    add("class_CPPower", "tensorly.decomposition.CPPower", lambda d: (lambda X=d.arr(*SH): dec.CPPower(R, n_repeat=2, n_iteration=2).fit_transform(X)), fam="FPower")
+    add("tensor_train_OI", "tensorly.contrib.decomposition.tensor_train_OI", lambda d: (lambda X=d.arr(*SH): (tensor_train_OI(X, [1, 2, 2, 1], n_iter=1, return_errors=True), tensor_train_OI(X, [1, 2, 2, 1], n_iter=2, trajectory=True, return_errors=False))), fam="FSvdChain")
+    add("tensor_ring_als_sampled_uniform", "tensorly.decomposition.tensor_ring_als_sampled",
+        lambda d: (lambda X=d.arr(*SH): dec.tensor_ring_als_sampled(X, [2, 2, 2, 2], n_samples=10, n_iter_max=3, random_state=1, uniform_sampling=True)), fam="FTrAlsSampled")
+    add("tensor_ring_als_ls_solve", "tensorly.decomposition.tensor_ring_als",
+        lambda d: (lambda X=d.arr(*SH): dec.tensor_ring_als(X, [2, 2, 2, 2], n_iter_max=3, random_state=1, ls_solve="normal_eq")), fam="FTrAls")
+    # factorised-tensor conversions
+    add("cp_normalize_no_weights", "tensorly.cp_tensor.cp_normalize", lambda d: (lambda i=cpinit(d): cpt.cp_normalize((None, i[1]))), fam="FCpNormalize", dts=ALL3, real={".weights"})
+    add("cp_object_methods", "tensorly.cp_tensor.CPTensor",
+        lambda d: (lambda i=cpinit(d), Mx=d.arr(2, 3): (lambda c: (c.to_tensor(), c.to_vec(), c.to_unfolded(1), c.norm(), c.mode_dot(Mx, 1, copy=True), c.normalize(inplace=False)))(CPTensor(i))),
+        fam="FPure", dts=ALL3, real={"#3", "#5.weights"})
+    add("tucker_conversions", "tensorly.tucker_tensor.tucker_to_unfolded",
+        lambda d: (lambda i=tkinit(d), Mx=d.arr(3, 4), v=d.arr(3): (tkt.tucker_to_unfolded(i, 1), tkt.tucker_to_vec(i), tkt.tucker_to_tensor(i, skip_factor=1), tkt.tucker_to_tensor((i[0], [f.T.copy() for f in i[1]]), transpose_factors=True),
+                                                                      tkt.tucker_mode_dot(i, Mx, 0, copy=True), tkt.tucker_mode_dot(i, v, 1, keep_dim=True, copy=True), tkt.tucker_normalize(i))),
+        fam="FPure", dts=ALL3)
+    add("tt_conversions", "tensorly.tt_tensor.tt_to_unfolded",
+        lambda d: (lambda a=[d.arr(1, 3, 2), d.arr(2, 4, 2), d.arr(2, 2, 1)]: (ttt.tt_to_unfolded(a, 1), ttt.tt_to_vec(a), ttt.pad_tt_rank(a, n_padding=1), ttt.pad_tt_rank(a, n_padding=2, pad_boundaries=True))),
+        fam="FPure", dts=ALL3)
+    add("tr_conversions", "tensorly.tr_tensor.tr_to_unfolded",
+        lambda d: (lambda b=[d.arr(2, 3, 2), d.arr(2, 4, 2), d.arr(2, 2, 2)]: (trt.tr_to_unfolded(b, 1), trt.tr_to_vec(b))), fam="FPure", dts=ALL3)
+    add("tt_matrix_conversions", "tensorly.tt_matrix.tt_matrix_to_tensor",
+        lambda d: (lambda a=[d.arr(1, 2, 3, 2), d.arr(2, 2, 2, 1)]: (ttm.tt_matrix_to_tensor(a), ttm.tt_matrix_to_matrix(a), ttm.tt_matrix_to_unfolded(a, 1), ttm.tt_matrix_to_vec(a),
+                                                                     _einsum(lambda: ttm.tt_matrix_to_tensor(a)))), fam="FPure", dts=ALL3)
+
+    def p2tensor(d):
+        projs = [np.linalg.qr(d.rs.randn(4 + i, 2))[0].astype(d.dt) for i in range(3)]
+        return (np.ones(2, dtype=d.dt), [d.arr(3, 2), d.arr(2, 2), d.arr(5, 2)], projs)
+    add("parafac2_conversions", "tensorly.parafac2_tensor.parafac2_to_tensor",
+        lambda d: (lambda x=p2tensor(d): (p2t.parafac2_to_tensor(x), p2t.parafac2_to_slices(x), p2t.parafac2_to_slice(x, 1), p2t.parafac2_to_unfolded(x, 1), p2t.parafac2_to_vec(x),
+                                          p2t.apply_parafac2_projections(x), p2t.parafac2_normalise(x))), fam="FPure")
+    add("parafac2_normalise_no_weights", "tensorly.parafac2_tensor.parafac2_normalise",
+        lambda d: (lambda x=p2tensor(d): p2t.parafac2_normalise((None, x[1], x[2]))), fam="FPure")
+    add("svd_decompress_parafac2", "tensorly.preprocessing.svd_decompress_parafac2_tensor",
+        lambda d: (lambda sl=slices(d): (lambda cs: svd_decompress_parafac2_tensor(dec.parafac2(cs[0], R, n_iter_max=2, random_state=1), cs[1]))(svd_compress_tensor_slices(sl, compression_threshold=0.0))), fam="FPure")
+    # tensor algebra: remaining variants
+    add("mttkrp_memory", "tensorly.tenalg.core_tenalg.mttkrp.unfolding_dot_khatri_rao_memory",
+        lambda d: (lambda X=d.arr(*SH), i=cpinit(d): unfolding_dot_khatri_rao_memory(X, i, 1)), fam="FPure", dts=ALL3)
+    add("tenalg_einsum_variants", "tensorly.tenalg.mode_dot",
+        lambda d: (lambda X=d.arr(*SH), i=tkinit(d), Y=d.arr(3, 5, 2): _einsum(lambda: (tenalg.mode_dot(X, i[1][1].T.copy(), 1), tenalg.multi_mode_dot(X, i[1], transpose=True), tenalg.kronecker(i[1][:2]),
+                                                                                   tenalg.outer([i[1][0][:, 0], i[1][1][:, 0]]), tenalg.inner(X, X), tenalg.tensordot(X, Y, modes=([1, 2], [0, 1])),
+                                                                                   tenalg.khatri_rao(i[1])))), fam="FPure", dts=ALL3)
+    add("tenalg_core_tensordot", "tensorly.tenalg.tensordot",
+        lambda d: (lambda X=d.arr(*SH), Y=d.arr(3, 5, 2), Z=d.arr(4, 3, 2): (tenalg.tensordot(X, Y, modes=([1, 2], [0, 1])), tenalg.tensordot(X, Z, modes=([1], [1]), batched_modes=([0], [0])),
+                                                                           tenalg.mode_dot(X, d.arr(3), 1), tenalg.batched_outer([X[:, :, 0], X[:, :, 1]]))), fam="FPure", dts=ALL3)
+    add("higher_order_moment_einsum", "tensorly.tenalg.higher_order_moment", lambda d: (lambda X=d.arr(6, 3): _einsum(lambda: tenalg.higher_order_moment(X, 3))), fam="FMoment")
+    # regressors with a matrix-valued target, metrics
+    add("cp_regressor_matrix_y", "tensorly.regression.CPRegressor",
+        lambda d: (lambda X=d.arr(6, 3, 4), y=d.arr(6, 2): (lambda m: (m.predict(X), m.weight_tensor_, m.cp_weight_, m.vec_W_))(CPRegressor(2, random_state=1, verbose=0, n_iter_max=3, reg_W=0.5).fit(X, y))),
+        fam="FCpReg")
+    add("tucker_regressor_reg", "tensorly.regression.TuckerRegressor",
+        lambda d: (lambda X=d.arr(6, 3, 4), y=d.arr(6): (lambda m: (m.predict(X), m.weight_tensor_, m.tucker_weight_, m.vec_W_))(TuckerRegressor([2, 2], random_state=1, verbose=0, n_iter_max=3, reg_W=0.5).fit(X, y))),
+        fam="FTuckerReg")
+    add("cp_plsr_vector_y", "tensorly.regression.cp_plsr.CP_PLSR",
+        lambda d: (lambda X=d.arr(6, 3, 4), Y=d.arr(6): (lambda m: (m.predict(X), m.fit_transform(X, Y), m.X_factors, m.Y_factors, m.coef_))(CP_PLSR(2, random_state=1).fit(X, Y))), fam="FPlsr")
+    add("entropy_metrics", "tensorly.metrics.entropy.vonneumann_entropy",
+        lambda d: (lambda A=d.arr(4, 3), i=cpinit(d), a=[d.arr(1, 3, 2), d.arr(2, 3, 1)]: (ENT.vonneumann_entropy((A @ A.T) / np.trace(A @ A.T)), ENT.cp_vonneumann_entropy((np.abs(i[0]), i[1])), ENT.tt_vonneumann_entropy(tl.tt_tensor.TTTensor(a)))),
+        fam="FMetric")
+    add("reflective_correlation", "tensorly.metrics.regression.reflective_correlation_coefficient",
+        lambda d: (lambda a=d.arr(7), b=d.arr(7): MR.reflective_correlation_coefficient(a, b)), fam="FMetric")
+    # backend-level generators with a context
+    add("backend_randn_gamma", "tensorly.randn",
+        lambda d: (lambda: (tl.randn((3, 2), seed=1, **tl.context(np.zeros(1, dtype=d.dt))), tl.gamma(2.0, size=(3, 2), seed=1, **tl.context(np.zeros(1, dtype=d.dt))))), fam="FRandom")
     names = [t["name"] for t in T]
     assert len(names) == len(set(names))
     return T
